@@ -29,7 +29,7 @@ Starts == { i \in 1..NL : Lines[i].k = 0 }
 ObsOf(r) == [k |-> r.k, t |-> r.t, mode |-> r.mode, e |-> r.e, ex |-> r.ex, ey |-> r.ey, ez |-> r.ez, sp |-> r.sp,
              tilt |-> r.tilt, yaw |-> r.yaw, rate |-> r.rate, m |-> r.m, lim |-> r.lim, ri |-> r.ri,
              imax |-> r.imax, zi |-> r.zi, zmax |-> r.zmax, nan |-> r.nan]
-ICOf(r)  == [kind |-> "ic", mode |-> r.ic.mode, q |-> r.ic.q, off |-> r.ic.off, vel |-> r.ic.vel, rate |-> r.ic.rate]
+ICOf(r)  == [kind |-> "ic", mode |-> r.ic.mode, q |-> r.ic.q, yaw |-> r.ic.yaw, q0 |-> r.ic.q0, off |-> r.ic.off, vel |-> r.ic.vel, rate |-> r.ic.rate]
 
 TraceInit == \E s \in Starts :
                 /\ l = s /\ tid = Lines[s].tid
